@@ -152,9 +152,9 @@ pub fn gen(tier: Tier, rng: &mut Rng64, out: &mut Out) {
             // source set shorter / longer than the variable count (name_of may panic)
             if n > 0 && rng.chance(1, 4) {
                 let short: Vec<String> = src[..n - 1].to_vec();
-                run("C17.transfer", &[f.clone(), fmt_names(&short), fmt_names(rng.pick(&targets[..]))], out);
+                run("C17.transfer", &[f.clone(), fmt_names(&short), fmt_names(&rng.pick::<Vec<String>>(&targets)[..])], out);
                 let mut long = src.clone(); long.push(s("z"));
-                run("C17.transfer", &[f.clone(), fmt_names(&long), fmt_names(rng.pick(&targets[..]))], out);
+                run("C17.transfer", &[f.clone(), fmt_names(&long), fmt_names(&rng.pick::<Vec<String>>(&targets)[..])], out);
             }
         }
     }
